@@ -73,7 +73,7 @@ def build_harness(log=None):
     if bad:
         shutil.rmtree(d, ignore_errors=True)
         raise BuildError("\n".join(r.stdout for r in bad))
-    r = sh(["clang-14", "-fsanitize=address,undefined", "-o", exe + ".tmp"] +
+    r = sh(["clang-14", "-fsanitize=address,undefined", "-Wl,--wrap=fopen", "-o", exe + ".tmp"] +
            [os.path.join(d, s + ".o") for s in SRC] + [os.path.join(d, "lvh.o")])
     if r.returncode != 0:
         shutil.rmtree(d, ignore_errors=True)
@@ -195,7 +195,7 @@ class HarnessResult:
 
 ASAN_RE = re.compile(r"ERROR: AddressSanitizer: (\S+)")
 UBSAN_RE = re.compile(r"runtime error: (.*)")
-FRAME_RE = re.compile(r"#\d+ 0x[0-9a-f]+ in (\S+) (\S+?):(\d+)")
+FRAME_RE = re.compile(r"#\d+ 0x[0-9a-f]+ in (\S+) (/\S+?\.[ch])(?::(\d+))?")
 
 
 def parse_fault(stderr, rc, timed_out=False):
@@ -231,6 +231,12 @@ def parse_fault(stderr, rc, timed_out=False):
         if mm and frame == "?":
             frame = os.path.basename(mm.group(1)) + ":" + mm.group(2)
     return {"kind": kind, "frame": frame, "detail": detail}
+
+
+# freed blocks are handed out again at once (no ASan quarantine): state keyed on the ADDRESS of a freed table
+# (stale caches surviving lou_free) only misbehaves when the address is reused
+ASAN_REUSE = {"ASAN_OPTIONS": "detect_leaks=0:abort_on_error=0:exitcode=99:allocator_may_return_null=1:"
+                              "quarantine_size_mb=0:thread_local_quarantine_size_kb=0"}
 
 
 def run_harness(exe, lines, cwd, timeout=120, env=None, leak=False):
